@@ -7,7 +7,7 @@ SPEC = {
              "external/diversified/internal addresses, spends of earlier notes of any age, foreign traffic, empty "
              "blocks, dust/zero/large values), scanned in random chunks (1..150 blocks) from either end or the middle "
              "of unscanned ranges, with duplicated scans, chain-tip updates, up to 3 rewinds followed by a different "
-             "continuation (some orphaned transactions re-mined). After EVERY operation total+uneconomic per "
+             "continuation (some orphaned transactions re-mined); half of the histories also hand the wallet transparent coins (put_received_transparent_utxo at scanned heights, values around the dust boundary). After EVERY operation total+uneconomic per "
              "account x pool is compared with the reference ledger; at the end the wallet is compared with a fresh "
              "wallet that scanned the same chain once in order. Signature = (pools, accounts, out-of-order?, "
              "#spend-before-receipt events observed (capped), frontier-extension>100 batches, nullifier pruning "
@@ -25,13 +25,13 @@ SPEC = {
     },
     "floors": {
         "quick": {"histories": 20, "balance_checks_exact": 1500, "spend_before_receipt_events": 50, "fresh_wallet_comparisons": 16,
-                  "rewinds": 5, "duplicate_scans": 20, "distinct_nontrivial": 16},
+                  "rewinds": 5, "duplicate_scans": 20, "distinct_nontrivial": 16, "transparent_coin_balance_checks": 200},
         "thorough": {"histories": 600, "balance_checks_exact": 40000, "spend_before_receipt_events": 1500, "fresh_wallet_comparisons": 400,
-                     "rewinds": 150, "frontier_extension_batches_gt100": 3, "histories_with_nullifier_pruning": 30, "distinct_nontrivial": 200},
+                     "rewinds": 150, "frontier_extension_batches_gt100": 3, "histories_with_nullifier_pruning": 30, "distinct_nontrivial": 200, "transparent_coin_balance_checks": 8000},
     },
     "manifest": {
         "technique": "history + executable ledger model: generated chains/scan orders/rewinds run against the real SQLite wallet, balance compared with ground truth after every operation, fresh-wallet differential at quiescence",
         "text": "Thousands of balance observations over generated histories (out-of-order and duplicated scans, spends scanned before receipts, rewinds with different continuations, re-mined orphans) each compared with an independent ledger built from the harness's ground truth; plus note-set/balance equality with a fresh in-order wallet. Held on everything executed.",
-        "note": "Sampled histories, not all; chain fabricated by the harness (compact blocks only, no transparent coins in this check - those are exercised in C08); dependency crypto trusted. Histories whose rewind exposes known finding F1 (shardtree) are still balance-checked but may stop early if a scan fails.",
+        "note": "Sampled histories, not all; chain fabricated by the harness (shielded notes come from fabricated compact blocks, transparent coins are reported through put_received_transparent_utxo (their spends are exercised in C08)); dependency crypto trusted. Histories whose rewind exposes known finding F1 (shardtree) are still balance-checked but may stop early if a scan fails.",
     },
 }
